@@ -1,6 +1,9 @@
 package zzverifctl
 
-import "net/url"
+import (
+	"fmt"
+	"net/url"
+)
 
 // the F9 shape
 func Bad_E8enc_fragment(u *url.URL, params url.Values) string {
@@ -11,4 +14,15 @@ func Bad_E8enc_fragment(u *url.URL, params url.Values) string {
 func Good_E8enc_rawfragment(u *url.URL, params url.Values) string {
 	u.RawFragment = params.Encode()
 	return u.String()
+}
+
+func e8describe(desc string, args ...any) string { return fmt.Sprintf(desc, args...) }
+
+// the seeded C11B shape: an error text used as a format
+func Bad_E8fmt_dataasformat(err error) string {
+	return e8describe(err.Error())
+}
+
+func Good_E8fmt_verb(err error) string {
+	return e8describe("%s", err.Error())
 }
